@@ -674,6 +674,16 @@ class XCodeBackend(backends.Backend):
                 custom_target_dependencies.append(self.pbx_custom_dep_map[t.get_id()])
             elif isinstance(t, build.BuildTarget):
                 target_dependencies.append(self.pbx_dep_map[t.get_id()])
+        # The tests are run with --no-rebuild, so everything they use must
+        # be built first, even if it is not built by default.
+        test_dependencies = []
+        for t in self.get_testlike_targets():
+            if isinstance(t, build.CustomTarget):
+                dep_id = self.pbx_custom_dep_map[t.get_id()]
+            else:
+                dep_id = self.pbx_dep_map[t.get_id()]
+            if dep_id not in test_dependencies:
+                test_dependencies.append(dep_id)
         aggregated_targets: list[tuple[str, str, str, list[str], list[str]]] = []
         aggregated_targets.append((self.all_id,
                                    'ALL_BUILD',
@@ -684,7 +694,7 @@ class XCodeBackend(backends.Backend):
                                    'RUN_TESTS',
                                    self.test_buildconf_id,
                                    [self.test_command_id],
-                                   [self.regen_dependency_id, self.build_all_tdep_id]))
+                                   [self.regen_dependency_id, self.build_all_tdep_id] + test_dependencies))
         aggregated_targets.append((self.regen_id,
                                    'REGENERATE',
                                    self.regen_buildconf_id,
